@@ -186,28 +186,88 @@ let run clause_prefix path =
     let items = Array.of_list (L.rev_map snd !(Hashtbl.find scns k)) in
     (* clause scanners over the observed sequence alone (TraceScan.v): they judge the trace even
        when the monitor does not accept it *)
+    let reported = Hashtbl.create 8 in
+    let report clause seq detail =
+      if not (Hashtbl.mem reported clause) then begin
+        Hashtbl.replace reported clause ();
+        Printf.printf "propfail %s %s seq=%s %s\n" k clause seq detail end in
     let evs = L.filter_map (function Ev (q, _, e) -> Some (q, e) | Mark _ -> None) (Array.to_list items) in
-    let prefix_fail (ok : C.event list -> bool) =
-      let rec go acc = function
-        | [] -> None
-        | (q, e) :: rest -> let acc' = acc @ [e] in if ok acc' then go acc' rest else Some q in
-      go [] evs in
+    let quiescent_end = Hashtbl.find_opt ends k = Some "quiescent" in
     let all_events = L.map snd evs in
+    (* attribution of a second delivery: known finding only if a PUBCOMP write for this id failed after the
+       first delivery and the client was replaced (resume) before the second one *)
+    let twice_tag (id : BinNums.coq_N) (upto : string) =
+      let rec go seen_cb failed_comp resumed = function
+        | [] -> (failed_comp, resumed)
+        | (q, e) :: rest ->
+          if q = upto then (failed_comp, resumed) else
+          (match e with
+           | C.ECb (_, C.Ok) -> go true failed_comp resumed rest
+           | C.ETx (Packet.Pubcomp i, _, C.Fail) when i = id && seen_cb -> go seen_cb true resumed rest
+           | C.ENew _ when failed_comp -> go seen_cb failed_comp true rest
+           | _ -> go seen_cb failed_comp resumed rest) in
+      let (f, r) = go false false false evs in
+      let delfail = L.exists (fun (_, e) -> match e with C.EDelete (Store.Incoming, i, C.Fail) -> i = id | _ -> false) evs in
+      if f && r then Some "callback_twice_after_failed_pubcomp"
+      else if delfail then None       (* outside the quantifier: the session store failed *)
+      else Some "callback_twice" in
     if not (TraceScan.scan_sbs [] all_events) then begin
-      let q = match prefix_fail (fun l -> TraceScan.scan_sbs [] l) with Some q -> q | None -> "?" in
-      Printf.printf "propfail %s store_before_send seq=%s publish_sent_before_saved (trace scan)\n" k q end;
-    (match TraceScan.scan_pubrec TraceScan.XInit all_events with
-     | None ->
-       let q = match prefix_fail (fun l -> TraceScan.scan_pubrec TraceScan.XInit l <> None) with Some q -> q | None -> "?" in
-       Printf.printf "propfail %s kept_until_acked seq=%s pubrec_not_followed_by_pubrel (trace scan)\n" k q
-     | Some (TraceScan.XSave id | TraceScan.XTx id) when Hashtbl.find_opt ends k = Some "quiescent" ->
-       Printf.printf "propfail %s kept_until_acked seq=end pubrec_unanswered id=%s (trace scan)\n" k (string_of_n id)
-     | _ -> ());
-    if Hashtbl.find_opt ends k = Some "quiescent" then begin
+      let rec first acc = function
+        | [] -> "?"
+        | (q, e) :: rest -> let acc' = acc @ [e] in if TraceScan.scan_sbs [] acc' then first acc' rest else q in
+      report "store_before_send" (first [] evs) "publish_sent_before_saved (trace scan)" end;
+    (let rec go x = function
+       | [] -> (match x with
+                | (TraceScan.XSave id | TraceScan.XTx id) when quiescent_end ->
+                  report "kept_until_acked" "end" ("pubrec_unanswered id=" ^ string_of_n id ^ " (trace scan)")
+                | _ -> ())
+       | (q, e) :: rest ->
+         (match TraceScan.pubrec_step x e with
+          | Some x' -> go x' rest
+          | None -> report "kept_until_acked" q "pubrec_not_followed_by_pubrel (trace scan)") in
+     go TraceScan.XInit evs);
+    (let rec go x = function
+       | [] -> ()
+       | (q, e) :: rest ->
+         let x' = TraceScan.hs_step x e in
+         (match TraceScan.hs_twice x' with
+          | Some id ->
+            (match twice_tag id q with
+             | Some tag -> report "exactly_once" q (tag ^ " id=" ^ string_of_n id ^ " (trace scan)")
+             | None -> ())
+          | None -> go x' rest) in
+     go { TraceScan.hs_tab = []; hs_cur = None } evs);
+    (let name_of = function
+       | TraceScan.YNone -> ("qos01", "none")
+       | TraceScan.YPub (Packet.Publish (_, m, id)) ->
+         if int_of_n m.Packet.m_qos = 2 then ("pubrec_always", "publish_qos2_unanswered id=" ^ string_of_n id)
+         else ("qos01", "publish_qos1_unanswered id=" ^ string_of_n id)
+       | TraceScan.YPub _ -> ("qos01", "publish")
+       | TraceScan.YAck id -> ("qos01", "publish_qos1_unanswered id=" ^ string_of_n id)
+       | TraceScan.YSave p -> ("pubrec_always", "publish_qos2_not_stored " ^ s_of_packet p)
+       | TraceScan.YRec id -> ("pubrec_always", "publish_qos2_unanswered id=" ^ string_of_n id)
+       | TraceScan.YRel id -> ("pubrel_answered", "pubrel_not_looked_up id=" ^ string_of_n id)
+       | TraceScan.YRelCb (_, _, id) -> ("exactly_once", "pubrel_for_stored_id_without_delivery id=" ^ string_of_n id)
+       | TraceScan.YComp (_, id) -> ("pubrel_answered", "pubrel_for_stored_id_unanswered id=" ^ string_of_n id)
+       | TraceScan.YDel id -> ("exactly_once", "stored_message_not_deleted id=" ^ string_of_n id) in
+     let rec go y = function
+       | [] -> ()
+       | (q, e) :: rest ->
+         (match TraceScan.ack_step y e with
+          | Some y' -> go y' rest
+          | None -> let (clause, what) = name_of y in
+            report clause q (what ^ " next_processor_event=" ^ event_kind e ^ " (trace scan)")) in
+     go TraceScan.YNone evs);
+    if not (TraceScan.scan_noack false all_events) then begin
+      let rec first acc = function
+        | [] -> "?"
+        | (q, e) :: rest -> let acc' = acc @ [e] in if TraceScan.scan_noack false acc' then first acc' rest else q in
+      report "no_ack_on_error" (first [] evs) "acknowledgement_after_callback_error (trace scan)" end;
+    if quiescent_end then begin
       match TraceScan.unresolved [] all_events with
       | [] -> ()
-      | l -> Printf.printf "propfail %s future_total seq=end future_unresolved_after_close calls=%s (trace scan)\n" k
-               (S.concat "," (L.map string_of_n l)) end;
+      | l -> report "future_total" "end" ("future_unresolved_after_close calls=" ^
+               S.concat "," (L.map string_of_n l) ^ " (trace scan)") end;
     let (r, deepest, dstate, exhausted) = run_scenario items in
     match r with
     | None ->
@@ -217,11 +277,6 @@ let run clause_prefix path =
       Printf.printf "diff %s seq=%s %s not enabled in the model (%s)%s\n" k seq text (state_summary dstate)
         (if exhausted then " search budget exhausted" else "")
     | Some steps ->
-      let reported = Hashtbl.create 8 in
-      let report clause seq detail =
-        if not (Hashtbl.mem reported clause) then begin
-          Hashtbl.replace reported clause ();
-          Printf.printf "propfail %s %s seq=%s %s\n" k clause seq detail end in
       L.iter (fun (seq, eo, s0, s) ->
         (match eo with
          | Some e ->
@@ -241,9 +296,9 @@ let run clause_prefix path =
          | Some id ->
            (* a failing DeletePacket(Incoming) is outside C10's quantifier (the session store is assumed
               to work; it is injected for conformance only): the message cannot but stay stored *)
-           if s.C.g.C.g_compfail then report "exactly_once" seq ("callback_twice_after_failed_pubcomp id=" ^ string_of_n id)
-           else if s.C.g.C.g_delfail then ()
-           else report "exactly_once" seq ("callback_twice id=" ^ string_of_n id)
+           (match twice_tag id seq with
+            | Some tag -> report "exactly_once" seq (tag ^ " id=" ^ string_of_n id)
+            | None -> ())
          | None -> ());
         (match eo with
          | None ->
